@@ -40,7 +40,19 @@ def jobs(tier):
     for g in ("I1024", "I2048", "I3072"):
         js.append(("job_int_scalar_codec", dict(_name="real %s: every scalar of [0,q) survives scalar_to_bytes/bytes_to_scalar" % g, gname=g)))
     js.append(("job_ed_scalar_codec", dict(_name="real Ed25519: every scalar of [0,L) survives the scalar codec")))
+    for g in ("toy11", "I1024", "Ed25519"):
+        js.append(("job_matrix", dict(_name="session matrix on the plain package: %s (ground)" % g, gname=g)))
+    for g in ("toy257", "toy1019", "sp61"):
+        js.append(("job_int_scalar_codec", dict(_name="custom group %s: every scalar of [0,q) survives the scalar codec" % g, gname=g)))
     return js
+
+
+def job_matrix(J, gname):
+    from checks import matrix
+    r = matrix.session_matrix((gname,))
+    J.ground("sessions of all roles interleaved in one process on %s: serialize() is the released state of that session only, "
+             "restored instances finish like the originals" % gname, r is None, r, oracle="restore",
+             args=dict(cls="A", k=1, shape="full", side=0x42, mode="peer", pw=b"pw", idA=b"a", idB=b"b", x=3))
 
 
 def _dict_equal(d1, d2):
@@ -192,6 +204,10 @@ def oracle_restore(cls, k, shape, side, mode, pw, idA, idB, x):
                     return (True, "class=%s params=%s k=%d msg=%02x/%s/%s pw=%r idA=%r idB=%r: original %s, restored %s" % (
                         cls, nm, k, sd, md, shape, pw, idA, idB, oa[1] if oa[0] == "exc" else "key " + oa[1].hex()[:16],
                         ob[1] if ob[0] == "exc" else "key " + ob[1].hex()[:16]))
+    from checks import matrix
+    r = matrix.session_matrix()
+    if r:
+        return (True, r)
     return (False, "restored instances behave identically")
 
 
